@@ -374,9 +374,11 @@ impl Model for M16 {
         if zero_scalar || noncanonical_scalar {
             let byte_import = !matches!(c, Codec::Bare | Codec::Json);
             let is_key_type = tn.starts_with("SecretKey<") || tn.starts_with("ProofCommitmentSecret") || tn.starts_with("ProofCommitmentChallenge") || tn == "SecretKeyEnum";
-            if zero_scalar && byte_import && is_key_type {
+            // whatever the bytes were: a key, commitment secret or challenge imported from bytes is never zero
+            let decoded_zero = v.scalars().iter().any(|sc| sc.iter().all(|b| *b == 0));
+            if byte_import && is_key_type && (zero_scalar || decoded_zero) {
                 o.outcome("zero-scalar:accepted");
-                o.expect(&key, false, "Err (zero key imported from bytes)", "decoded");
+                o.expect(&key, false, "Err (zero key imported from bytes)", if decoded_zero { "decoded to the zero scalar" } else { "decoded" });
             } else {
                 // serde acceptance of a zero scalar / reduction of a non canonical one is recorded, not judged
                 o.outcome(if zero_scalar { "zero-scalar:accepted-by-serde" } else { "noncanonical-scalar:accepted" });
